@@ -19,7 +19,7 @@ class _C:
     def __getitem__(self, cols):
         import numpy as np
 
-        cols = [np.asarray(c, dtype=object).reshape(-1) for c in cols]
+        cols = [np.asarray(c._arr if isinstance(c, DeclArr) else c, dtype=object).reshape(-1) for c in cols]
         n = len(cols[0])
         m = np.empty((n, len(cols)), dtype=object)
         for j, c in enumerate(cols):
@@ -39,6 +39,15 @@ class NPX:
         import numpy as np
 
         return getattr(np, name)
+
+    def empty(self, shape, dtype=None, **kw):
+        """A table allocated with a declared element type: what is stored in it is converted to that type (integers truncate,
+        float32 rounds - an uninterpreted function of the stored double)."""
+        import numpy as np
+
+        if dtype is None or np.dtype(dtype) == object or np.dtype(dtype) == np.float64:
+            return np.empty(shape, dtype=object)
+        return TypedTable(shape, np.dtype(dtype))
 
     def sqrt(self, a):
         import numpy as np
@@ -69,6 +78,52 @@ class NPX:
             out = m[0].copy()  # numpy squeezes a single row to 1-d
             return out
         return m.T.copy() if unpack else m.copy()
+
+
+class DeclArr:
+    """Values of a coordinate with a declared element type (numpy's .dtype of an object array would say 'object')."""
+
+    def __init__(self, arr, dtype):
+        import numpy as np
+
+        self._arr, self.dtype = arr, np.dtype(dtype)
+        self.shape, self.ndim = arr.shape, arr.ndim
+
+    def __len__(self):
+        return len(self._arr)
+
+    def __array__(self, dtype=None, copy=None):
+        return self._arr
+
+    def __getitem__(self, k):
+        return self._arr[k]
+
+    def __iter__(self):
+        return iter(self._arr)
+
+    def reshape(self, *a):
+        return self._arr.reshape(*a)
+
+
+def TypedTable(shape, dt):
+    import numpy as np
+    from symex import core as C
+
+    class _T(np.ndarray):
+        def __setitem__(self, key, value):
+            v = np.asarray(value._arr if isinstance(value, DeclArr) else value, dtype=object)
+            out = np.empty(v.shape, dtype=object)
+            for idx in np.ndindex(v.shape):
+                x = C.R.lift(v[idx])
+                if dt.kind in 'iu':
+                    out[idx] = x if x.special else C.sym_trunc(x)
+                elif dt == np.float32:
+                    out[idx] = C.rfn('fl32', x)
+                else:
+                    out[idx] = x
+            np.ndarray.__setitem__(self, key, out if out.shape else out[()])
+
+    return np.empty(shape, dtype=object).view(_T)
 
 
 OTHERS = ['other', 'other2', 'other3']
@@ -137,7 +192,7 @@ class _Masks:
 class XDA:
     """DataArray stand-in whose structural properties are symbolic."""
 
-    def __init__(self, sc, C, has_var, n):
+    def __init__(self, sc, C, has_var, n, coord_dtype='float64'):
         import numpy as np
         from symsc.variable import Variable
 
@@ -154,7 +209,7 @@ class XDA:
         self.coords = SymCoordsX(C, self.ncoords, self.has_dim, self.edges)
         self.y = [C.sym_var(f'y{i}') for i in range(n)]
         self.v = [C.sym_var(f'v{i}', sign='0+') for i in range(n)]
-        self.x = {k: [C.sym_var(f'{k}_{i}') for i in range(n)] for k in self.names}
+        self.x = {k: [C.sym_var(f'{k}_{i}', is_int=coord_dtype.startswith('int')) for i in range(n)] for k in self.names}
 
         def arr(vals):
             a = np.empty((len(vals),), dtype=object)
@@ -165,7 +220,14 @@ class XDA:
         self.values = arr(self.y)
         self.variances = arr(self.v) if has_var else None
         for k in self.x:
-            self.coords.vars[k] = Variable(_arr=arr(self.x[k]), dims=('DIM',), unit=sc.Unit('us'), dtype=sc.DType.float64)
+            if coord_dtype == 'float64':
+                self.coords.vars[k] = Variable(_arr=arr(self.x[k]), dims=('DIM',), unit=sc.Unit('us'), dtype=sc.DType.float64)
+            else:
+                class _CV(Variable):
+                    @property
+                    def values(self_):
+                        return DeclArr(self_._a, coord_dtype)
+                self.coords.vars[k] = _CV(_arr=arr(self.x[k]), dims=('DIM',), unit=sc.Unit('us'), dtype=getattr(sc.DType, coord_dtype))
             self.coords.vars[k]._aligned = self.aligned[k]
 
     def structure_assumptions(self, C):
@@ -393,15 +455,16 @@ class FileObj:
 
 
 def job_roundtrip(j, seed):
-    n, target = j if isinstance(j, tuple) else (j, 'path')
+    n, target, *more = j if isinstance(j, tuple) else (j, 'path')
+    cdt = more[0] if more else 'float64'  # element type of the coordinate that is written
     from symex import core as C
     from .symutil import fresh_run
 
     sc, xye = _load()
     fresh_run()
     obs, cands = [], []
-    case = {'kind': 'roundtrip', 'n': n, 'target': target}
-    da = XDA(sc, C, True, n)
+    case = {'kind': 'roundtrip', 'n': n, 'target': target, 'coord_dtype': cdt}
+    da = XDA(sc, C, True, n, cdt)
     for c in (da.ndim == 1, ~da.masks.b, da.ncoords == 1, da.has_dim, ~da.edges['DIM']):
         C.CTX.assume(c)
     C.CTX.fork_timeout_ms = 3000
@@ -430,7 +493,7 @@ def job_roundtrip(j, seed):
             if ob.status != 'discharged':
                 cands.append(('C15:target', case, f'file object used by the package itself: {[c_[:2] for c_ in log_w + log_r][:4]}'))
         if p.exc is not None or p.inconclusive:
-            obs.append({'name': f'roundtrip[n={n}]:path{k}', 'status': 'inconclusive' if p.inconclusive else 'violated', 'detail': str(p.inconclusive or repr(p.exc))[:200], 't': 0})
+            obs.append({'name': f'roundtrip[n={n},{cdt} coordinate]:path{k}', 'status': 'inconclusive' if p.inconclusive else 'violated', 'detail': str(p.inconclusive or repr(p.exc))[:200], 't': 0})
             if p.exc is not None:
                 cands.append(('C15:roundtrip:raises', case, repr(p.exc)[:100]))
             continue
@@ -439,13 +502,13 @@ def job_roundtrip(j, seed):
         if len(out.data) == n:
             for i in range(n):
                 good = good & (out.coords['DIM'].values[i] == da.x['DIM'][i]) & (out.data.values[i] == da.y[i]) & (out.data.variances[i] == da.v[i])
-        ob = C.prove(f'roundtrip[n={n}]:path{k}:coordinate and values identical, variances = (sqrt v)^2 = v over the reals', good, pc=p.pc)
+        ob = C.prove(f'roundtrip[n={n},{cdt} coordinate]:path{k}:coordinate and values identical, variances = (sqrt v)^2 = v over the reals', good, pc=p.pc)
         obs.append(ob_dict(ob))
         if ob.status == 'violated':
             cands.append(('C15:roundtrip', case, 'round trip changes the data'))
-        ob = C.prove(f'roundtrip[n={n}]:path{k}:generated header is a single line', C.B.const('\n' not in hdr and '\r' not in hdr))
+        ob = C.prove(f'roundtrip[n={n},{cdt} coordinate]:path{k}:generated header is a single line', C.B.const('\n' not in hdr and '\r' not in hdr))
         obs.append(ob_dict(ob))
-        ob = C.prove(f'roundtrip[n={n}]:path{k}:units attached as requested', C.B.const(out.data.unit == sc.Unit('counts') and out.coords['DIM'].unit == sc.Unit('us')))
+        ob = C.prove(f'roundtrip[n={n},{cdt} coordinate]:path{k}:units attached as requested', C.B.const(out.data.unit == sc.Unit('counts') and out.coords['DIM'].unit == sc.Unit('us')))
         obs.append(ob_dict(ob))
     # rounding of sqrt followed by squaring: (1+d1)^2 (1+d2) within 4 ulp (relative), first-order model
     u = Fraction(1, 2**53)
@@ -463,7 +526,7 @@ def run(chk):
     chk.functions = loader.describe_exprs(['xye.save_xye', 'xye.load_xye', 'xye._deduce_coord', 'xye._generate_xye_header'], {**globals(), **locals()})
     jobs = [(hv, cg, n) for hv in (True, False) for cg in (None, 'DIM', 'other') for n in ((1, 2) if chk.tier == 'quick' else (1, 2, 3, 4))]
     run_jobs(chk, job_refusal, jobs)
-    run_jobs(chk, job_roundtrip, [(1, 'path'), (2, 'path'), (3, 'path'), (2, 'file-object')] + ([(4, 'path'), (5, 'path'), (6, 'path'), (1, 'file-object'), (3, 'file-object'), (5, 'file-object')] if chk.tier == 'thorough' else []))
+    run_jobs(chk, job_roundtrip, [(1, 'path'), (2, 'path'), (3, 'path'), (2, 'file-object'), (2, 'path', 'int64'), (2, 'path', 'float32'), (1, 'path', 'int32')] + ([(4, 'path'), (5, 'path'), (6, 'path'), (1, 'file-object'), (3, 'file-object'), (5, 'file-object')] if chk.tier == 'thorough' else []))
     run_jobs(chk, job_bits, [1, 2] if chk.tier == 'quick' else [1, 2, 3, 4])
     chk.bounds = {'configuration': 'ndim (symbolic integer), number of coordinates (symbolic, 0..3), masks / dimension-coordinate present / per-coordinate bin-edge and alignment flags (symbolic Booleans); variances present and coord argument (None, dimension-coordinate, another coordinate) enumerated',
                   'rows': ('1..3' if chk.tier == 'quick' else '1..6') + ' with symbolic values; path and file-object targets'}
@@ -593,6 +656,23 @@ def replay_real(case):
                 if not np.array_equal(a.view(np.int64), b.view(np.int64)):
                     bad.append(f'n={n}: {nm} {a.tolist()} loaded for {b.tolist()} (bit patterns differ)')
         return {'reproduced': bool(bad), 'detail': '; '.join(bad[:2])}
+    if case.get('coord_dtype', 'float64') != 'float64':
+        # a coordinate that is not double precision (sc.arange gives int64): the data values and variances are still doubles
+        cdt = case['coord_dtype']
+        for n in (1, 2, 7):
+            vals = rng.normal(size=n) * 3 + 0.37
+            var = np.abs(rng.normal(size=n)) + 0.25
+            x = (np.arange(n) * 3 + 1).astype(cdt)
+            da = sc.DataArray(sc.array(dims=['tof'], values=vals, variances=var, unit='counts'), coords={'tof': sc.array(dims=['tof'], values=x, unit='us')})
+            f = io.StringIO()
+            xye.save_xye(f, da)
+            f.seek(0)
+            out = xye.load_xye(f, dim='tof', unit='counts', coord_unit='us')
+            if not np.array_equal(out.coords['tof'].values, x.astype('float64')) or not np.array_equal(out.values, vals):
+                bad.append(f'n={n}, {cdt} coordinate: values {vals.tolist()} come back as {out.values.tolist()}')
+            elif not np.allclose(out.variances, var, rtol=1e-15, atol=0):
+                bad.append(f'n={n}, {cdt} coordinate: variances {var.tolist()} come back as {out.variances.tolist()}')
+        return {'reproduced': bool(bad), 'detail': '; '.join(bad[:2])[:500]}
     for n in (1, 2, 5, 50):
         vals = np.concatenate([rng.normal(size=n) * 10.0 ** rng.integers(-300, 300, size=n)])[:n]
         var = np.abs(rng.normal(size=n)) * 10.0 ** rng.integers(-200, 200, size=n)
